@@ -640,7 +640,7 @@ func (d *decoder) parseDataFields(dm *defmsg, knownMsg bool, msgv reflect.Value)
 
 		pfield, pfound := getField(dm.globalMsgNum, dfield.num)
 		if pfound {
-			if pfield.t.BaseType() != types.BaseString && !pfield.t.Array() {
+			if pfield.t.BaseType() != types.BaseString && !pfield.t.Array() && !dfield.btype.Float() {
 				padding = pfield.t.BaseType().Size() - dsize
 			}
 		} else if d.opts.unknownFields {
@@ -655,15 +655,21 @@ func (d *decoder) parseDataFields(dm *defmsg, knownMsg bool, msgv reflect.Value)
 		}
 
 		if padding != 0 {
+			// Widen the value to the size of the profile base type.
+			psize := pfield.t.BaseType().Size()
 			if dm.arch == le {
-				for j := dsize; j < pfield.t.BaseType().Size(); j++ {
+				for j := dsize; j < psize; j++ {
 					d.tmp[j] = 0x00
 				}
 			} else {
-				for j := 0; j < pfield.t.BaseType().Size(); j++ {
-					d.tmp[j], d.tmp[j+padding] = 0x00, d.tmp[j]
+				copy(d.tmp[padding:psize], d.tmp[:dsize])
+				for j := 0; j < padding; j++ {
+					d.tmp[j] = 0x00
 				}
 			}
+			// The value is now held as the profile base type.
+			dfield.size = byte(psize)
+			dfield.btype = pfield.t.BaseType()
 		}
 
 		if !knownMsg || !pfound {
